@@ -81,6 +81,7 @@ class Eval(object):
         self.lossless = lossless_casts
         self.events = None        # list collecting call events while a path is evaluated
         self.preserve = ()        # records assumed untouched by callees (stated assumption of the rule that sets it)
+        self.overlaps = []        # (function, loop line, target address - source address at loop entry, walk direction)
 
     def read(self, st, loc):
         if loc[0] == 'm' and len(loc) > 2:
@@ -580,6 +581,26 @@ def affine_paths(m, fname, lossless=False, preserve=(), stop_at_unsummarised=Fal
                     ind[l] = ks.pop() if (len(ks) == 1 and 'x' not in ks) else None
                 N, exact = trip_count(g, lp, ind, ev, st, names)
                 copies = set(c for (s_, c, z) in res['paths'])
+                # same-buffer moves: distance between target and source address at loop entry, and the direction of the walk
+                for (s_, c_, sites_) in res['paths']:
+                    for (nid_, (cx_, l_, src_)) in sites_:
+                        def addr_(e):
+                            e = strip(e)
+                            if e.k == 'un' and e.op == '*':
+                                return ev.ev(e.kids[0], st), e.kids[0]
+                            if e.k == 'idx':
+                                return ladd(ev.ev(e.kids[0], st), ev.ev(e.kids[1], st)), e
+                            return TOP, e
+                        (da, de), (sa, se) = addr_(l_), addr_(src_)
+                        dirs = set()
+                        for e_ in (de, se):
+                            for r_ in walk(e_):
+                                lo_ = loc_of(r_) if r_.k in ('ref', 'mem') else None
+                                if lo_ is not None and ind.get(lo_[:2]) in (1, -1):
+                                    dirs.add(ind[lo_[:2]])
+                        if is_lin(da) and is_lin(sa) and len(dirs) == 1:
+                            ev.overlaps.append((fn_name, lp.line, ladd(da, sa, -1), dirs.pop()))
+                    break
                 for l, k in ind.items():
                     if k is None:
                         st[l] = TOP
@@ -869,6 +890,61 @@ def block_refill(ctx):
     ctx.require_min(props, RULE4, n, 3, 'object accessor calls in COSdoUploadBlock')
 
 
+RULE5 = 'RF17-overlap'
+
+
+def overlap_direction(ctx):
+    """A copy loop that moves bytes WITHIN one buffer (target and source address differ by an amount that does not mention
+    two different bases) must walk in the direction that does not overwrite bytes it still has to read: towards the front
+    (target below source) ascending, towards the back descending - the memmove rule.  The distance is the affine
+    difference of the two addresses at loop entry (all atoms are unsigned counts, so a form whose coefficients are all
+    <= 0 is a move to the front), the direction the common step of the cursors."""
+    m = ctx.m
+    n = 0
+    for fname in sorted(m.funcs):
+        g = m.cfg(fname)
+        if not any(not is_fake(g, lp) for lp in g.loops):
+            continue
+        has_copy = any(copy_stores(nd.x) for nd in g.nodes if nd.kind == 'stmt' and nd.x is not None)
+        if not has_copy or m.is_new_helper(fname):
+            continue
+        try:
+            finals, ev, names = affine_paths(m, fname, lossless=True, preserve=('CO_SDO_SEG', 'CO_SDO_BUF', 'CO_SDO_BLK'),
+                                             stop_at_unsummarised=True)
+        except AnalysisBroken:
+            continue
+        props = props_for(m, fname)
+        seen = set()
+        for (fn_name, line, d, k) in ev.overlaps:
+            if not is_lin(d) or (not d[1] and d[2] == 0):
+                continue
+            # a difference with coefficients of both signs relates two different bases (object storage vs. caller buffer): not a
+            # move within one buffer
+            coeffs = [c_ for (a, c_) in d[1]] + ([d[2]] if d[2] else [])
+            if all(c_ <= 0 for c_ in coeffs):
+                want = 1
+            elif all(c_ >= 0 for c_ in coeffs):
+                want = -1
+            else:
+                continue
+            key = (fn_name, line, _show(d), k)
+            if key in seen:
+                continue
+            seen.add(key)
+            n += 1
+            site = '%s: move within one buffer by %s bytes, walking %s' % (m.loc(fn_name, line), _show(d), 'up' if k > 0 else 'down')
+            if k == want:
+                ctx.ob(props, RULE5, fname, site, 'direction does not overwrite unread bytes')
+            else:
+                ctx.ob(props, RULE5, fname, site, None)
+                ctx.find(props, RULE5, fname, 'direction:%s' % _show(d).replace(' ', ''), m.loc(fn_name, line),
+                         '%s: the copy loop at line %d moves bytes within one buffer (target - source = %s) but walks %s: when the two '
+                         'ranges overlap, bytes are overwritten before they are read (the retransmitted segments carry wrong data)'
+                         % (fname, line, _show(d), 'downwards' if k < 0 else 'upwards'))
+    ctx.inst('RF17.overlap-moves', n)
+    ctx.require_min(['C03'], RULE5, n, 1, 'moves within one buffer')
+
+
 def _show(v):
     if v == TOP:
         return '<not expressible>'
@@ -922,3 +998,4 @@ def run(ctx):
     account(ctx)
     if 'COSdoUploadBlock' in ctx.m.funcs:
         block_refill(ctx)
+        overlap_direction(ctx)
